@@ -10,10 +10,13 @@
    is numpy broadcasting of the scalar 0.  (Broadcasting between non-empty vectors of different lengths is
    an error in numpy and outside the model: gradients have the shape of their argument.)
 
-   The square root is an explicit function argument `sq` of every definition: the theorems hold for every
-   `sq`, the correspondence run instantiates it with `qsqrt 100` (a rational lower approximation of the
-   square root with relative error < 2^-100, proved in OptimizersProofs.qsqrt_encloses). *)
-From Coq Require Import List ZArith QArith Qabs Bool.
+   The square root, and the rounding of the quotient update term that contains it, are explicit function
+   arguments (`sq nm`, `rnd nm`) of every definition: the theorems hold for every such pair (rnd = identity
+   is the documented formula); the correspondence run instantiates them with `qsqrt 100` (a rational lower
+   approximation of the square root with error < 2^-100 / denominator, proved in
+   OptimizersProofs.qsqrt_encloses) and `qround 100` (rounding down to a multiple of 2^-100, which keeps the
+   model's numbers dyadic and small). *)
+From Coq Require Import List ZArith QArith Qabs Qround Bool.
 Import ListNotations.
 Open Scope Q_scope.
 
@@ -36,6 +39,7 @@ Fixpoint qpow (x : Q) (n : nat) : Q := match n with O => 1 | S n' => x * qpow x 
 Inductive kind := GD | Momentum | Nesterov | Adagrad | RMSProp | Adam.
 (* eta = stepsize; gam = momentum (Momentum, Nesterov) / decay (RMSProp) / beta1 (Adam); beta2, eps as named *)
 Record hyper := mkH { eta : Q; gam : Q; beta2 : Q; eps : Q }.
+Record numerics := mkN { sq : Q -> Q; rnd : Q -> Q }.
 
 (* ---- the per-argument update of each optimizer (body of the `if requires_grad` branch of apply_grad,
         i.e. _update_accumulation followed by the new value).  t = value of accumulation["t"] AFTER the
@@ -43,7 +47,7 @@ Record hyper := mkH { eta : Q; gam : Q; beta2 : Q; eps : Q }.
 Definition adam_stepsize (h : hyper) (sq : Q -> Q) (t : nat) : Q :=
   eta h * sq (1 - qpow (beta2 h) t) / (1 - qpow (gam h) t).
 
-Definition upd (k : kind) (h : hyper) (sq : Q -> Q) (t : nat) (x g : vec) (s : accs) : vec * accs :=
+Definition upd (k : kind) (h : hyper) (nm : numerics) (t : nat) (x g : vec) (s : accs) : vec * accs :=
   match k with
   | GD => (vzip (fun a b => Qred (a - eta h * b)) x g, s)
   | Momentum | Nesterov =>
@@ -53,16 +57,16 @@ Definition upd (k : kind) (h : hyper) (sq : Q -> Q) (t : nat) (x g : vec) (s : a
   | Adagrad =>
       (* accumulation[index] + grad**2 ; arg - stepsize / sqrt(accumulation[index] + eps) * grad *)
       let a' := vzip (fun a b => Qred (a + b * b)) (fst s) g in
-      (vzip (fun a b => Qred (a - b)) x (vzip (fun a b => eta h / sq (a + eps h) * b) a' g), (a', snd s))
+      (vzip (fun a b => Qred (a - b)) x (vzip (fun a b => rnd nm (eta h / sq nm (a + eps h) * b)) a' g), (a', snd s))
   | RMSProp =>
       (* decay * accumulation[index] + (1 - decay) * grad**2 *)
       let a' := vzip (fun a b => Qred (gam h * a + (1 - gam h) * (b * b))) (fst s) g in
-      (vzip (fun a b => Qred (a - b)) x (vzip (fun a b => eta h / sq (a + eps h) * b) a' g), (a', snd s))
+      (vzip (fun a b => Qred (a - b)) x (vzip (fun a b => rnd nm (eta h / sq nm (a + eps h) * b)) a' g), (a', snd s))
   | Adam =>
       let fm' := vzip (fun a b => Qred (gam h * a + (1 - gam h) * b)) (fst s) g in
       let sm' := vzip (fun a b => Qred (beta2 h * a + (1 - beta2 h) * (b * b))) (snd s) g in
-      let ns := adam_stepsize h sq t in
-      (vzip (fun a b => Qred (a - b)) x (vzip (fun f v => ns * f / (sq v + eps h)) fm' sm'), (fm', sm'))
+      let ns := adam_stepsize h (sq nm) t in
+      (vzip (fun a b => Qred (a - b)) x (vzip (fun f v => rnd nm (ns * f / (sq nm v + eps h))) fm' sm'), (fm', sm'))
   end.
 
 (* ---- the loop of apply_grad: `index` walks over the arguments and over the accumulation list,
@@ -87,11 +91,11 @@ Definition ostate := option (nat * list accs).        (* None = `self.accumulati
 (* if self.accumulation is None: self.accumulation = [0.0] * len(args)   (Adam: fm, sm, t = 0) *)
 Definition init_state (args : list arg) : nat * list accs := (O, repeat empty_acc (length args)).
 
-Definition opt_apply (k : kind) (h : hyper) (sq : Q -> Q) (grad : list vec) (args : list arg) (st : ostate)
+Definition opt_apply (k : kind) (h : hyper) (nm : numerics) (grad : list vec) (args : list arg) (st : ostate)
   : list arg * ostate :=
   let '(t, ac) := match st with None => init_state args | Some s => s end in
   let t' := S t in
-  let '(args', ac') := walk (upd k h sq t') grad args ac in
+  let '(args', ac') := walk (upd k h nm t') grad args ac in
   (args', Some (t', ac')).
 
 (* ---- compute_grad: where the gradient oracle is queried.  Nesterov: `if self.accumulation:` (not None and
@@ -113,36 +117,36 @@ Definition query (k : kind) (h : hyper) (args : list arg) (st : ostate) : list a
    in order).  autograd = true models grad_fn=None: the gradient function built by qp.grad records the
    objective value of its own evaluation point in `.forward`, and step_and_cost returns that value when it
    is present; with a user grad_fn (no `.forward`) the objective is evaluated at *args. *)
-Definition step (k : kind) (h : hyper) (sq : Q -> Q) (gradf : list arg -> list vec) (args : list arg) (st : ostate)
+Definition step (k : kind) (h : hyper) (nm : numerics) (gradf : list arg -> list vec) (args : list arg) (st : ostate)
   : list arg * ostate :=
-  opt_apply k h sq (gradf (query k h args st)) args st.
+  opt_apply k h nm (gradf (query k h args st)) args st.
 
-Definition step_and_cost (k : kind) (h : hyper) (sq : Q -> Q) (autograd : bool)
+Definition step_and_cost (k : kind) (h : hyper) (nm : numerics) (autograd : bool)
   (gradf : list arg -> list vec) (costf : list arg -> Q) (args : list arg) (st : ostate)
   : list arg * ostate * Q :=
   let q := query k h args st in
   let g := gradf q in
   let forward := if autograd then Some (costf q) else None in
-  let '(args', st') := opt_apply k h sq g args st in
+  let '(args', st') := opt_apply k h nm g args st in
   (args', st', match forward with Some c => c | None => costf args end).
 
 Definition reset (st : ostate) : ostate := None.
 
 (* ---- histories: n steps with a step-indexed gradient oracle; `trace` = the gradients the optimizer was
         given, `queries` = the points at which the oracle was asked ---- *)
-Fixpoint run (k : kind) (h : hyper) (sq : Q -> Q) (orc : nat -> list arg -> list vec) (n t0 : nat)
+Fixpoint run (k : kind) (h : hyper) (nm : numerics) (orc : nat -> list arg -> list vec) (n t0 : nat)
   (args : list arg) (st : ostate) : list arg * ostate :=
   match n with
   | O => (args, st)
-  | S n' => let '(args', st') := step k h sq (orc t0) args st in run k h sq orc n' (S t0) args' st'
+  | S n' => let '(args', st') := step k h nm (orc t0) args st in run k h nm orc n' (S t0) args' st'
   end.
 
-Fixpoint trace (k : kind) (h : hyper) (sq : Q -> Q) (orc : nat -> list arg -> list vec) (n t0 : nat)
+Fixpoint trace (k : kind) (h : hyper) (nm : numerics) (orc : nat -> list arg -> list vec) (n t0 : nat)
   (args : list arg) (st : ostate) : list (list vec) :=
   match n with
   | O => []
-  | S n' => let '(args', st') := step k h sq (orc t0) args st in
-            orc t0 (query k h args st) :: trace k h sq orc n' (S t0) args' st'
+  | S n' => let '(args', st') := step k h nm (orc t0) args st in
+            orc t0 (query k h args st) :: trace k h nm orc n' (S t0) args' st'
   end.
 
 (* ---- observers used by the statements ---- *)
@@ -173,11 +177,13 @@ Definition qsqrt (p : positive) (x : Q) : Q :=
   else let d := Zpos (Qden x) in
        Qred (Z.sqrt (Qnum x * d * 4 ^ Zpos p) # (Qden x * 2 ^ p)).
 
+Definition qround (p : positive) (x : Q) : Q := Qred (Qfloor (x * (Zpos (2 ^ p) # 1)) # 2 ^ p).
+
 (* ---- objectives of the correspondence run: f(z) = z^T A z + b.z + c on the concatenation z of all
         arguments (A any square matrix); gradient (A + A^T) z + b, cut into the trainable arguments ---- *)
 Record quad := mkQ { qA : list (list Q); qb : list Q; qc : Q }.
 Definition flat (args : list arg) : vec := concat (map snd args).
-Fixpoint dot (a b : vec) : Q := match a, b with x :: a', y :: b' => x * y + dot a' b' | _, _ => 0 end.
+Fixpoint dot (a b : vec) : Q := match a, b with x :: a', y :: b' => Qred (x * y + dot a' b') | _, _ => 0 end.
 Definition quad_cost (q : quad) (args : list arg) : Q :=
   let z := flat args in Qred (dot z (map (fun row => dot row z) (qA q)) + dot (qb q) z + qc q).
 Definition quad_grad_flat (q : quad) (z : vec) : vec :=
@@ -254,7 +260,7 @@ Fixpoint replay (k : kind) (h : hyper) (objs : list quad) (cs : list call) (os :
   match cs, os with
   | [], [] => true
   | c :: cs', (oargs, ocost, ost) :: os' =>
-      let sq := qsqrt 100 in
+      let sq := mkN (qsqrt 100) (qround 100) in
       let '(args', st', cost) :=
         match c with
         | CStep ag j => let q := nth j objs (mkQ [] [] 0) in
